@@ -78,9 +78,26 @@ func genC16(rng *rand.Rand, tier string) *sim.Plan {
 		}
 		ph.Ops = append(ph.Ops, sim.Op{K: "subscribe", C: l.sub[n], Subs: []mqttc.Sub{{Filter: "m/#", QoS: 1}}})
 	}
+	// the churn clients hold a few subscriptions already while the cluster forms; some of them go away in the very
+	// instant a Hello reply reaches their node, i.e. while that node snapshots and queues its full state for the peer
+	form := sim.Phase{Ops: []sim.Op{{K: "sleep", C: -1, D: sim.Sec(4)}}}
+	if chance(rng, 0.6) {
+		for n := 0; n < nn; n++ {
+			for _, c := range []int{l.chA[n], l.chB[n]} {
+				for _, f := range c16filters[:4] {
+					if chance(rng, 0.5) {
+						ph.Ops = append(ph.Ops, sim.Op{K: "subscribe", C: c, Subs: []mqttc.Sub{{Filter: f, QoS: 1}}})
+						if chance(rng, 0.6) {
+							form.Ops = append(form.Ops, sim.Op{K: "unsubscribe", C: c, Filters: []string{f}, Trigger: "hello>" + fedNode(n), Instant: true, NoWait: true, D: sim.Sec(3)})
+						}
+					}
+				}
+			}
+		}
+	}
 	p.Phases = append(p.Phases, ph)
 	// phase 1: let the cluster form and the initial state be exchanged
-	p.Phases = append(p.Phases, sim.Phase{Ops: []sim.Op{{K: "sleep", C: -1, D: sim.Sec(4)}}})
+	p.Phases = append(p.Phases, form)
 	msg := 0
 	pubs := func(ph *sim.Phase, n int, k int) {
 		pipeline := chance(rng, 0.5)
